@@ -108,6 +108,23 @@ def _install():
     wrap_add(RuleDBBase)
     wrap_add(RuleDBForest)
 
+    def wrap_get_rules(cls):
+        orig = cls.get_specification_rules
+
+        def get_specification_rules(self, *a, **k):
+            s = cur()
+            it = orig(self, *a, **k)
+            if s is None or s.searcher is None or s.searcher.ruledb is not self:
+                return it
+            rules = list(it)
+            s.raw_rules.append(rules)
+            return iter(rules)
+
+        cls.get_specification_rules = get_specification_rules
+
+    wrap_get_rules(RuleDBBase)
+    wrap_get_rules(RuleDBForest)
+
 
 def strat_id(s) -> str:
     return repr(s)
@@ -130,6 +147,7 @@ class Session:
         self.namer = ins.Namer("c")
         self.origins: Dict[int, Any] = {}
         self.packets: List[dict] = []
+        self.raw_rules: List[list] = []
         self.ev: Dict[str, List[dict]] = {k: [] for k in ("classdb", "queue", "equiv", "table", "hasspec", "search")}
         self.stream: List[dict] = []  # classdb + add events in order (Trace_Search)
         self.checks = 0
@@ -282,6 +300,33 @@ class Session:
     def classdb_trace(self, tid):
         evs = [e for e in self.stream if e["op"] != "rule"]
         return {"tid": tid, "te": self.truly_empty(), "events": evs}
+
+    def class_table(self):
+        """name -> class record for WordUniverse.tla (only for classes of the word universe)"""
+        return {n: c.desc() for c, n in self.namer.names.items() if hasattr(c, "desc")}
+
+    def spec_events(self, spec, max_n=5, counts=True, stages=("raw", "final")):
+        """events of Trace_Spec for a returned specification: rule lists and the root's enumeration"""
+        from .specdesc import spec_rules_desc, terms_list
+
+        ev = []
+        root = self.namer(spec.root)
+        if "raw" in stages and self.raw_rules:
+            ev.append({"op": "spec", "stage": "raw", "root": root, "rules": spec_rules_desc(self.raw_rules[-1], self.namer, self.pack)})
+        if "final" in stages:
+            ev.append({"op": "spec", "stage": "final", "root": root, "rules": spec_rules_desc(list(spec.rules_dict.values()), self.namer, self.pack)})
+        if counts:
+            for n in range(max_n + 1):
+                try:
+                    terms = spec.get_terms(n)
+                    ev.append({"op": "terms", "c": root, "n": n, "terms": terms_list(terms)})
+                except Exception as e:
+                    ev.append({"op": "terms", "c": root, "n": n, "terms": [[[-1], hash(type(e).__name__) % 1000 + 1]], "error": type(e).__name__ + ":" + str(e)[:200]})
+        return ev
+
+    def spec_trace(self, tid, events):
+        return {"tid": tid, "classes": self.class_table(), "te": self.truly_empty(), "pack": [strat_id(s) for s in self.pack],
+                "events": events}
 
     def search_trace(self, tid):
         return {"tid": tid, "te": self.truly_empty(), "flavour": self.flavour,
